@@ -35,7 +35,7 @@ enum {
 	L_UNREG_TIMER_PENDING, L_LEVEL_REPEAT, L_M0, L_M1, L_M2, L_M3, L_FREE_IN_HANDLER, L_EV_FAIL,
 	L_RAW_IN_HANDLER_POST, L_FAR_TIMER, L_TFD_FALLBACK, L_PPOLL_FALLBACK,
 	L_RAW_BIG_BURST, L_RAW_SIGNAL_POST, L_RAW_CHILD_POST, L_RAW_PIPE, L_RAW_OLD_EVENTFD, L_RAW_1024_MULTIPLE,
-	L_FAULT_HIT, L_METHOD_SWITCHED,
+	L_FAULT_HIT, L_METHOD_SWITCHED, L_SAME_STRUCT, L_QUIT_RERUN,
 };
 
 /* ------------------------------------------------------------------ configuration */
@@ -54,6 +54,8 @@ static int64_t entry_reading;  /* the thread's last clock reading when the curre
 static int cfg_nfd, cfg_ntimer, cfg_ntask, cfg_nev, cfg_nraw;
 static long budget;
 static int profile;      /* 0 all, 1 fd, 2 timer, 3 task, 4 lifecycle(C07), 5 raw events (C09) */
+static int eperm_active;
+static long cfg_eperm_from = -1;  /* eventfd2() is refused with EPERM from its k-th call on (a sandbox clamping down in mid-run) */
 static int cfg_eventfd_mode;   /* 0 eventfd2, 1 old eventfd (eventfd2 -> EINVAL), 2 pipe (both -> ENOSYS) */
 static int known_handlerless_excluded, known_evfail_excluded;
 static long forced_eintr_prim = -1, forced_eintr_k = -1;
@@ -79,7 +81,7 @@ struct cell { int kind, id; unsigned gen; int live; int superseded; };
 struct fdo {
 	int ch_kind;               /* 0 pipe-rd, 1 pipe-wr, 2 socketpair */
 	int fd, peer; int peer_open;
-	struct iv_fd *iv; int registered; struct cell *cell;
+	struct iv_fd *iv; int registered; struct cell *cell; int valid;   /* valid: struct went through its INIT macro and was not scribbled over since */
 	int var[3];                /* installed variant per band (0 = NULL) */
 	unsigned long called_iter[3];
 	int gt[3]; int gt_valid;   /* ground truth at the last real poll since registration */
@@ -89,7 +91,7 @@ struct fdo {
 	int ncalls[3];
 };
 struct tmo {
-	struct iv_timer *iv; int registered; struct cell *cell;
+	struct iv_timer *iv; int registered; struct cell *cell; int valid;
 	int64_t expires; int due_seen; unsigned long reg_iter; int reg_in_timer_round;
 };
 struct tko {
@@ -97,11 +99,11 @@ struct tko {
 	unsigned long last_run_poll; int ran_ever;
 };
 struct evo {
-	struct iv_event *iv; int registered; struct cell *cell;
+	struct iv_event *iv; int registered; struct cell *cell; int valid;
 	int posts_outstanding; long nposts, ncalls;
 };
 struct rwo {
-	struct iv_event_raw *iv; int registered; struct cell *cell;
+	struct iv_event_raw *iv; int registered; struct cell *cell; int valid; int nfds;
 	int posts_outstanding;
 };
 static struct fdo fdos[MAXFD];
@@ -135,6 +137,13 @@ static int n_registered(void)
 	return n;
 }
 
+/* what freshly allocated / released object memory looks like: not always the same pattern, and sometimes small values that
+ * could pass for valid field contents (band masks, flags, list state) */
+static int fill_byte(void) { static const unsigned char pats[] = { 0xA5, 0xA5, 0x00, 0xFF, 0x01, 0x02, 0x03, 0x04, 0x05, 0x06, 0x07, 0x5A }; return pats[ch_n(sizeof pats)]; }
+/* "Before an object is registered it must have been initialised by IV_*_INIT": once is enough, so callers commonly keep an
+ * unregistered (or fired) struct as it is and register it again later.  same_struct(): do that now? */
+static int same_struct(void *iv, int valid) { return cfg_alloc_reuse && iv && valid && ch_n(2); }
+static int keep_struct(void) { return ch_n(3) == 0; }
 static struct cell *new_cell(int kind, int id)
 {
 	static unsigned gen;
@@ -224,9 +233,13 @@ static void cb_leave(void)
 static void fd_do_register(int i, int try_variant)
 {
 	struct fdo *f = &fdos[i];
-	if (!cfg_alloc_reuse || !f->iv) f->iv = malloc(sizeof *f->iv);
-	memset(f->iv, 0xA5, sizeof *f->iv);
-	IV_FD_INIT(f->iv);
+	int same = same_struct(f->iv, f->valid);
+	if (!same) {
+		if (!cfg_alloc_reuse || !f->iv) f->iv = malloc(sizeof *f->iv);
+		memset(f->iv, fill_byte(), sizeof *f->iv);
+		IV_FD_INIT(f->iv);
+		f->valid = 1;
+	} else { vz_label(L_SAME_STRUCT); vz_log("  (fd%d: same struct as before, not initialised again)", i); }
 	f->cell = new_cell(KIND_FD, i);
 	f->iv->fd = f->fd; f->iv->cookie = f->cell;
 	for (int b = 0; b < 3; b++) f->var[b] = ch_n(3);
@@ -266,7 +279,8 @@ static void fd_do_unregister(int i)
 	else {
 		int g[3]; gt_one(f, g);
 		if (g[0] || g[1]) vz_label(L_REUSE_READY);
-		memset(f->iv, 0x5A, sizeof *f->iv);   /* caller may reuse the memory at once */
+		if (keep_struct()) vz_log("  (struct kept)");
+		else { memset(f->iv, 0x5A, sizeof *f->iv); f->valid = 0; }   /* caller may reuse the memory at once */
 	}
 }
 static void fd_do_set(int i, int band, int v)
@@ -387,9 +401,13 @@ static int64_t draw_expiry(void)
 static void timer_do_register(int i)
 {
 	struct tmo *t = &tmos[i];
-	if (!cfg_alloc_reuse || !t->iv) t->iv = malloc(sizeof *t->iv);
-	memset(t->iv, 0xA5, sizeof *t->iv);
-	IV_TIMER_INIT(t->iv);
+	int same = same_struct(t->iv, t->valid);
+	if (!same) {
+		if (!cfg_alloc_reuse || !t->iv) t->iv = malloc(sizeof *t->iv);
+		memset(t->iv, fill_byte(), sizeof *t->iv);
+		IV_TIMER_INIT(t->iv);
+		t->valid = 1;
+	} else { vz_label(L_SAME_STRUCT); vz_log("  (timer%d: same struct as before, not initialised again)", i); }
 	t->cell = new_cell(KIND_TIMER, i);
 	t->expires = draw_expiry();
 	t->iv->expires = vk_ns_ts(t->expires); t->iv->cookie = t->cell; t->iv->handler = timer_cb;
@@ -411,7 +429,7 @@ static void timer_do_unregister(int i)
 	t->registered = 0; t->cell->live = 0;
 	if (iv_timer_registered(t->iv)) fail_any("timer-registered-true", "iv_timer_registered()!=0 after unregister");
 	if (!cfg_alloc_reuse) { memset(t->iv, 0x5A, sizeof *t->iv); free(t->iv); t->iv = NULL; }
-	else memset(t->iv, 0x5A, sizeof *t->iv);
+	else if (!keep_struct()) { memset(t->iv, 0x5A, sizeof *t->iv); t->valid = 0; }
 }
 static void timer_cb(void *cookie)
 {
@@ -455,7 +473,7 @@ static void task_do_register(int i)
 	if (cfg_alloc_reuse && t->iv && ch_n(2)) fresh = 0;   /* re-register the very same, already-run struct without re-init */
 	if (fresh) {
 		if (!cfg_alloc_reuse || !t->iv) t->iv = malloc(sizeof *t->iv);
-		memset(t->iv, 0xA5, sizeof *t->iv);
+		memset(t->iv, fill_byte(), sizeof *t->iv);
 		IV_TASK_INIT(t->iv);
 	}
 	t->cell = new_cell(KIND_TASK, i);
@@ -508,9 +526,13 @@ static int ev_fail_armed;
 static void event_do_register(int i, int want_fail)
 {
 	struct evo *e = &evos[i];
-	if (!cfg_alloc_reuse || !e->iv) e->iv = malloc(sizeof *e->iv);
-	memset(e->iv, 0xA5, sizeof *e->iv);
-	IV_EVENT_INIT(e->iv);
+	int same = same_struct(e->iv, e->valid);
+	if (!same) {
+		if (!cfg_alloc_reuse || !e->iv) e->iv = malloc(sizeof *e->iv);
+		memset(e->iv, fill_byte(), sizeof *e->iv);
+		IV_EVENT_INIT(e->iv);
+		e->valid = 1;
+	} else { vz_label(L_SAME_STRUCT); vz_log("  (event%d: same struct as before, not initialised again)", i); }
 	struct cell *c = new_cell(KIND_EVENT, i);
 	e->iv->cookie = c; e->iv->handler = event_cb;
 	ev_fail_armed = want_fail;
@@ -533,7 +555,7 @@ static void event_do_unregister(int i)
 	iv_event_unregister(e->iv);
 	e->registered = 0; e->cell->live = 0; e->posts_outstanding = 0;
 	if (!cfg_alloc_reuse) { memset(e->iv, 0x5A, sizeof *e->iv); free(e->iv); e->iv = NULL; }
-	else memset(e->iv, 0x5A, sizeof *e->iv);
+	else if (!keep_struct()) { memset(e->iv, 0x5A, sizeof *e->iv); e->valid = 0; }
 }
 static void event_do_post(int i)
 {
@@ -562,19 +584,35 @@ static void event_cb(void *cookie)
 }
 
 /* ------------------------------------------------------------------ raw events */
+static int count_fds(void) { int n = 0; for (int fd = 0; fd < 256; fd++) if (fcntl(fd, F_GETFD) >= 0) n++; return n; }
+static int lib_closing;    /* inside a library call that releases descriptors */
+static void hook_close_failed(int fd, int err)
+{
+	if (!lib_closing || err != EBADF) return;
+	FAILP("C09", "close-not-open", "the library closed descriptor %d, which is not open (closed twice: in a threaded program the number may be somebody else's by now)", fd);
+	FAILP("C18", "close-not-open", "the library closed descriptor %d, which is not open", fd);
+}
 static void raw_do_register(int i)
 {
 	struct rwo *e = &rwos[i];
-	if (!cfg_alloc_reuse || !e->iv) e->iv = malloc(sizeof *e->iv);
-	memset(e->iv, 0xA5, sizeof *e->iv);
-	IV_EVENT_RAW_INIT(e->iv);
+	int same = same_struct(e->iv, e->valid);
+	if (!same) {
+		if (!cfg_alloc_reuse || !e->iv) e->iv = malloc(sizeof *e->iv);
+		memset(e->iv, fill_byte(), sizeof *e->iv);
+		IV_EVENT_RAW_INIT(e->iv);
+		e->valid = 1;
+	} else { vz_label(L_SAME_STRUCT); vz_log("  (raw%d: same struct as before, not initialised again)", i); }
 	struct cell *c = new_cell(KIND_RAW, i);
 	e->iv->cookie = c; e->iv->handler = raw_cb;
+	int nfd0 = count_fds();
 	int r = iv_event_raw_register(e->iv);
+	e->nfds = count_fds() - nfd0;      /* descriptors the object holds (1 with an eventfd, 2 with the pipe transport) */
+	if (r && e->nfds) { FAILP("C18", "descriptor-leak", "a failed iv_event_raw_register left %d descriptor(s) open", e->nfds); FAILP("C09", "descriptor-leak", "a failed iv_event_raw_register left %d descriptor(s) open", e->nfds); }
 	vz_log("  raw%d register -> %d", i, r); vz_hash_u(0xd00 + i);
 	if (r) {
 		int injected = 0;
 		for (int k = 0; k < nfaults; k++) if (faults[k].sys == VKS_EVENTFD2 || faults[k].sys == VKS_EVENTFD || faults[k].sys == VKS_PIPE) injected = 1;
+		if (cfg_eperm_from >= 0) injected = 1;
 		if (!injected) fail_any("raw-register-failed", "iv_event_raw_register returned %d without injected fault", r);
 		vz_label(L_FAILED_REG); c->live = 0;
 		if (!cfg_alloc_reuse) { free(e->iv); e->iv = NULL; }
@@ -587,10 +625,16 @@ static void raw_do_unregister(int i)
 	struct rwo *e = &rwos[i];
 	if (depth > 0 && e->posts_outstanding) vz_label(L_UNREG_DUE_VICTIM);
 	vz_log("  raw%d unregister%s", i, e->posts_outstanding ? " (post pending)" : ""); vz_hash_u(0xe00 + i);
+	int nfd0 = count_fds();
+	lib_closing = 1;
 	iv_event_raw_unregister(e->iv);
+	lib_closing = 0;
+	int closed = nfd0 - count_fds();
+	if (closed != e->nfds) { FAILP("C09", "descriptor-leak", "raw%d: registering opened %d descriptor(s), unregistering closed %d", i, e->nfds, closed);
+				 FAILP("C18", "descriptor-leak", "raw%d: iv_event_raw_register opened %d descriptor(s), iv_event_raw_unregister closed %d", i, e->nfds, closed); }
 	e->registered = 0; e->cell->live = 0; e->posts_outstanding = 0;
 	if (!cfg_alloc_reuse) { memset(e->iv, 0x5A, sizeof *e->iv); free(e->iv); e->iv = NULL; }
-	else memset(e->iv, 0x5A, sizeof *e->iv);
+	else if (!keep_struct()) { memset(e->iv, 0x5A, sizeof *e->iv); e->valid = 0; }
 }
 static struct iv_event_raw *sig_target;
 static void sigusr2_poster(int sig) { (void)sig; if (sig_target) iv_event_raw_post(sig_target); }
@@ -659,12 +703,12 @@ enum act { A_NONE, A_FD_REG, A_FD_REG_TRY, A_FD_UNREG, A_FD_SET, A_FD_COOKIE, A_
 	A_RAW_REG, A_RAW_UNREG, A_RAW_POST, A_QUIT, A_BURN, A_FD_TRY_BAD, A_EV_REG_FAIL, A_UNREG_ALL, NACT };
 static const unsigned char weights[6][NACT] = {
 	/*            none reg try unr set cok pw  pr  pc  sr  sf  treg tunr kreg kunr ereg eunr epost rreg runr rpost quit burn bad evf all */
-	/* all  */ {   4,  6,  2,  6,  6,  1,  4,  2,  2,  5,  2,  6,   4,   5,   2,   3,   2,   4,    2,   2,   3,    1,   2,   1,  1,  1 },
-	/* fd   */ {   3,  8,  3,  6, 12,  2,  6,  4,  3,  8,  4,  2,   1,   1,   0,   0,   0,   0,    1,   1,   1,    0,   1,   1,  0,  0 },
-	/* timer*/ {   3,  2,  0,  1,  1,  0,  4,  0,  0,  3,  0, 14,   6,   3,   1,   0,   0,   0,    0,   0,   0,    0,   5,   0,  0,  0 },
-	/* task */ {   3,  3,  0,  2,  2,  0,  3,  0,  0,  3,  0,  4,   1,  14,   4,   1,   0,   2,    0,   0,   0,    0,   1,   0,  0,  0 },
+	/* all  */ {   4,  6,  2,  6,  6,  1,  4,  2,  2,  5,  2,  6,   4,   5,   2,   3,   2,   4,    2,   2,   3,    2,   2,   1,  1,  1 },
+	/* fd   */ {   3,  8,  3,  6, 12,  2,  6,  4,  3,  8,  4,  2,   1,   1,   0,   0,   0,   0,    1,   1,   1,    1,   1,   1,  0,  0 },
+	/* timer*/ {   3,  2,  0,  1,  1,  0,  4,  0,  0,  3,  0, 14,   6,   3,   1,   0,   0,   0,    0,   0,   0,    1,   5,   0,  0,  0 },
+	/* task */ {   3,  3,  0,  2,  2,  0,  3,  0,  0,  3,  0,  4,   1,  14,   4,   1,   0,   2,    0,   0,   0,    1,   1,   0,  0,  0 },
 	/* life */ {   3,  4,  2,  5,  2,  0,  2,  0,  1,  3,  0,  4,   3,   4,   2,   4,   3,   3,    2,   2,   2,    3,   1,   3,  3,  2 },
-	/* raw  */ {   3,  2,  0,  1,  1,  0,  2,  0,  0,  2,  0,  3,   1,   2,   0,   1,   1,   1,    8,   4,  14,    0,   1,   0,  0,  0 },
+	/* raw  */ {   3,  2,  0,  1,  1,  0,  2,  0,  0,  2,  0,  3,   1,   2,   0,   1,   1,   1,    8,   4,  14,    2,   1,   0,  0,  0 },
 };
 
 static int pick_registered(int kind, int want_reg, int self_id)
@@ -794,6 +838,9 @@ static int hook_sysfault(int sys, unsigned long k)
 	}
 	if (sys == VKS_EPOLL_PWAIT2 && cfg_pwait2_err) { vz_label(L_PWAIT2_FALLBACK); return cfg_pwait2_err; }
 	if (sys == VKS_EVENTFD2 && ev_fail_armed) return EMFILE;
+	/* a sandbox clamping down in mid-run refuses the whole eventfd family from then on */
+	if (sys == VKS_EVENTFD2 && cfg_eperm_from >= 0 && (long)k >= cfg_eperm_from) { eperm_active = 1; vz_label(L_FAULT_HIT); return EPERM; }
+	if (sys == VKS_EVENTFD && eperm_active) return EPERM;
 	if (sys == VKS_EVENTFD2 && cfg_eventfd_mode >= 1) return cfg_eventfd_mode == 1 ? EINVAL : ENOSYS;
 	if (sys == VKS_EVENTFD && cfg_eventfd_mode >= 2) return ENOSYS;
 	if (sys == VKS_EPOLL_WAIT || sys == VKS_EPOLL_PWAIT2 || sys == VKS_POLL || sys == VKS_PPOLL) {
@@ -1046,6 +1093,7 @@ void target_run(void)
 	cfg_cb_cost = (int64_t[]){ 0, 0, 150, 40000 }[ch_n(4)];
 	cfg_eventfd_mode = (profile == 5) ? (int[]){ 0, 1, 2, 2 }[ch_n(4)] : (int[]){ 0, 0, 0, 0, 0, 1, 2 }[ch_n(7)];
 	if (vz_param_l("eventfd_mode", -1) >= 0) cfg_eventfd_mode = vz_param_l("eventfd_mode", 0);
+	if (profile == 5 && cfg_eventfd_mode == 0 && ch_n(5) == 0) cfg_eperm_from = 1 + ch_n(4);
 	if (cfg_eventfd_mode == 1) vz_label(L_RAW_OLD_EVENTFD); else if (cfg_eventfd_mode == 2) vz_label(L_RAW_PIPE);
 	vz_hash_u(cfg_eventfd_mode);
 	if (vz_param_l("no_eintr", 0)) cfg_eintr_pct = 0;
@@ -1080,7 +1128,7 @@ void target_run(void)
 	       mname[cfg_method], cfg_alloc_reuse ? "reuse" : "malloc/free", cfg_clk_pct, (long long)cfg_cb_cost, cfg_eintr_pct, cfg_pwait2_err, cfg_nfd, cfg_ntimer, cfg_ntask, cfg_nev, cfg_nraw, budget);
 
 	vk_reset();
-	vk_hooks.clock_incr = hook_clock_incr; vk_hooks.sysfault = hook_sysfault; vk_hooks.wait_entry = hook_wait_entry;
+	vk_hooks.clock_incr = hook_clock_incr; vk_hooks.sysfault = hook_sysfault; vk_hooks.close_failed = hook_close_failed; vk_hooks.wait_entry = hook_wait_entry;
 	vk_hooks.wait_block = hook_wait_block; vk_hooks.quiescent = hook_quiescent; vk_hooks.wait_return = hook_wait_return;
 	vk_hooks.wait_error = hook_wait_error; vk_hooks.tfd_set = hook_tfd_set; vk_hooks.poll_is_probe = hook_poll_is_probe; vk_hooks.io_pre = hook_io_pre;
 	{ struct sigaction sa; memset(&sa, 0, sizeof sa); sa.sa_handler = sigusr2_poster; sigaction(SIGUSR2, &sa, NULL); }
@@ -1121,7 +1169,7 @@ void target_run(void)
 		vz_label(L_TASK_SELF_REREG); vz_nontrivial();
 		return;
 	}
-	for (rounds = 0; rounds < 2; rounds++) {
+	for (rounds = 0; rounds < 3; rounds++) {
 		vz_log("setup (round %d):", rounds);
 		if (profile == 5 && rounds == 0) { raw_do_register(0); if (cfg_nraw > 1 && ch_n(2)) raw_do_register(1); }
 		if (ticker && rounds == 0 && fdos[0].ch_kind != 1) {
@@ -1148,7 +1196,10 @@ void target_run(void)
 						 fail_any("early-return", "iv_main returned with %d objects registered and no iv_quit", nreg); }
 		for (int i = 0; i < cfg_ntimer; i++)   /* exactly-once: nothing registered may be left unfired unless quit */
 			if (tmos[i].registered && !quit_called) FAILP("C04", "never-fired", "timer%d never fired", i);
-		if (confluent || ch_n(3) != 1 || budget <= 0) break;
+		if (confluent || budget <= 0) break;
+		/* `while (!done) iv_main();` idiom: a handler quit the loop with other work collected or pending; run again */
+		if (quit_called && nreg) { if (ch_n(4) == 0) break; vz_label(L_QUIT_RERUN); }
+		else if (ch_n(3) != 1) break;
 		vz_label(L_SECOND_ROUND);
 	}
 	/* wind down */
